@@ -137,37 +137,39 @@ Example C13_withdraw_nonvacuous :
 Proof. vm_compute. auto. Qed.
 
 (* the WITHDRAW_REWARD transaction on the application path (CheckTx and DeliverTx both run
-   Validate).  A negative amount is refused and leaves both records unchanged (45cfd0d; before it
-   a negative amount was a deposit: balance up, withdrawn counter negative).  An amount inside
-   int64 that is accepted pays a non-negative amount, at most the matured balance and at most the
-   pool, and moves exactly that amount from balance to withdrawn. *)
-Theorem C13_withdraw_tx_negative_refused : forall value bal wd pool, value < 0 ->
+   Validate).  A negative amount (45cfd0d) and an amount that does not fit int64 (ed95e98) are
+   refused and leave both records unchanged.  Over ALL amounts: the transaction is either refused
+   without any change, or it moves exactly a = value * 10^18 from the matured balance to the
+   withdrawn counter, with 0 <= a <= balance and a <= pool. *)
+Theorem C13_withdraw_tx_invalid_refused : forall value bal wd pool, value < 0 \/ 2^63 <= value ->
   withdraw_tx value bal wd pool = (false, bal, wd).
-Proof. exact withdraw_tx_negative. Qed.
-Print Assumptions C13_withdraw_tx_negative_refused.
+Proof. exact withdraw_tx_invalid. Qed.
+Print Assumptions C13_withdraw_tx_invalid_refused.
 
-Theorem C13_withdraw_tx_in_range : forall value bal wd pool bal' wd', 0 <= value < 2^63 ->
-  withdraw_tx value bal wd pool = (true, bal', wd') ->
-  let a := value * UNIT in
-  0 <= a <= bal /\ a <= pool /\ bal' = bal - a /\ wd' = wd + a.
-Proof. exact withdraw_tx_in_range. Qed.
-Print Assumptions C13_withdraw_tx_in_range.
+Theorem C13_withdraw_tx_total : forall value bal wd pool ok bal' wd',
+  withdraw_tx value bal wd pool = (ok, bal', wd') ->
+  (ok = false /\ bal' = bal /\ wd' = wd) \/
+  (ok = true /\ let a := value * UNIT in 0 <= a <= bal /\ a <= pool /\ bal' = bal - a /\ wd' = wd + a).
+Proof. exact withdraw_tx_total. Qed.
+Print Assumptions C13_withdraw_tx_total.
 
-(* the former accepted input (corpus/C13.json withdraw_values): -2 OLT against a matured balance *)
+(* the former accepted inputs (corpus/C13.json withdraw_values) *)
 Example C13_withdraw_minus2_refused :
   withdraw_tx (-2) 153424657534246575340 0 1000000000000000000000000 = (false, 153424657534246575340, 0) /\
   withdraw_tx 1 153424657534246575340 0 1000000000000000000000000
     = (true, 152424657534246575340, 1000000000000000000).
 Proof. vm_compute. auto. Qed.
 
-(* NOT excluded by 45cfd0d (observed on the real code with `vh c13 -probe-negwd`): an amount that
-   does not fit int64 passes IsValid (it is positive) and is narrowed by ToCoinWithBase; 2^64 - 2
-   becomes -2, the same deposit as before.  The range hypothesis of C13_withdraw_tx_in_range is
-   therefore necessary. *)
-Example C13_withdraw_tx_int64_wrap :
+(* fixed ed95e98: 2^64 - 2 used to pass IsValid and arrive in runWithdraw as -2 (a deposit:
+   balance 190780821917808219175 -> 192780821917808219175, withdrawn 1e18 -> -1e18) *)
+Example C13_withdraw_tx_int64_wrap_refused :
   withdraw_tx (2^64 - 2) 190780821917808219175 1000000000000000000 999999000000000000000000
-  = (true, 192780821917808219175, -1000000000000000000).
-Proof. vm_compute. reflexivity. Qed.
+    = (false, 190780821917808219175, 1000000000000000000) /\
+  withdraw_tx (2^63) 190780821917808219175 1000000000000000000 999999000000000000000000
+    = (false, 190780821917808219175, 1000000000000000000) /\
+  withdraw_tx (2^64 + 1) 190780821917808219175 1000000000000000000 999999000000000000000000
+    = (false, 190780821917808219175, 1000000000000000000).
+Proof. vm_compute. auto. Qed.
 
 (* ---- the former refuted witnesses (findings/C13_*.json, all repaired) are closed examples now:
    the inputs on which the full statements used to fail, with the observations of the real code
